@@ -321,8 +321,8 @@ func (l *Lexer) readNumber(ch byte) (token.Type, string) {
 	// Fractional part
 	if l.peekChar() == '.' {
 		if dotSeen {
-			// Stop if we see another dot
-			return t, string(l.input[pos : l.pos-1])
+			// Stop if we see another dot (it's not part of this number, left for the next token).
+			return t, string(l.input[pos:l.pos])
 		}
 		t = token.FLOAT
 		l.pos++
@@ -347,7 +347,8 @@ func (l *Lexer) readNumber(ch byte) (token.Type, string) {
 		l.pos++
 	}
 	if !isDigit(l.peekChar()) {
-		// Invalid exponent, stop here
+		// Invalid exponent, stop here (and rewind so the 'e' and sign aren't lost).
+		l.pos = errPos
 		return t, string(l.input[pos:errPos])
 	}
 	t = token.FLOAT
